@@ -1,4 +1,5 @@
 import FgaVerif.Proofs.Weights
+import FgaVerif.Proofs.WeightsPump
 /-! # C04 — weights equal the true maximum tuple-hop depth (specification side)
 
     `Spec/Weights.lean` is a *specification*, not a port: the Go weight assignment (`AssignWeights`,
@@ -20,8 +21,23 @@ import FgaVerif.Proofs.Weights
     * `accepted_has_no_empty_weights` — an accepted (well-founded) graph has no node with an empty
       weight map.
 
-    Not proved: that the fuel of the iteration always suffices (checked per input), that the fixed
-    point reached is the least one, and anything about the Go algorithm.  -/
+    And, independently of how the weights are computed, that they **mean** what the property says
+    (`Spec/WeightsSem.lean`: `HasType g T n` — terminal type `T` reaches `n` through any operand of a
+    relation/union/group, every operand of an intersection, the base of an exclusion; `Walk g T n k` —
+    a walk from `n` to a terminal `T` through nodes that `T` reaches, using `k` tuple hops).  Under the
+    run-time hypotheses `isFixpoint` and `normalB` (every value is `Infinite` or below the saturation
+    threshold `|g|+1`; both evaluated by the driver on every input):
+    * `weight_keys_exact` — a node carries a weight for `T` **iff** `T` reaches it;
+    * `finite_weight_is_max_hops` — a finite weight `v` is attained by a walk with exactly `v` hops and
+      no walk has more;
+    * `infinite_weight_iff_unbounded` — the weight is `Infinite` **iff** the hop counts of the walks
+      are unbounded (pigeonhole + pumping, `Proofs/WeightsPump.lean`), iff some walk has more hops than
+      the graph has nodes;
+    * `every_weight_witnessed` needs no hypothesis at all: whatever the iteration writes is witnessed
+      by a walk, so the result never over-approximates (this is what makes the fixed point the least one).
+
+    Not proved: that the fuel of the iteration always suffices (checked per input: `isFixpoint`,
+    `normalB`), and anything about the Go algorithm.  -/
 namespace FgaVerif.Props.C04
 open FgaVerif.Spec.Weights
 
@@ -63,6 +79,78 @@ theorem accepted_has_no_empty_weights (g : SGraph) (h : wellFounded g = true) :
   have := h.2 n hn
   simpa using this
 
+/-! ### what the weights mean -/
+
+/-- whatever the specification writes is witnessed by a walk (no convergence hypothesis) -/
+theorem every_weight_witnessed (g : SGraph) (hc : g.length + 2 < infinite) (n T : String) (v : Nat)
+    (h : lookupW T (stateGet (weights g) n) = some v) :
+    ∃ k, Walk g T n k ∧ ((v = infinite ∧ g.length + 1 ≤ k) ∨ v = Nat.min k (g.length + 2)) := by
+  obtain ⟨k, hw, hv⟩ := weights_sound g hc n T v h
+  exact ⟨k, hw, by simpa using hv⟩
+
+/-- **a node carries a weight for exactly the terminal types that reach it** -/
+theorem weight_keys_exact (g : SGraph) (hfix : isFixpoint g (weights g) = true) (hc : g.length + 2 < infinite)
+    (n T : String) : (lookupW T (stateGet (weights g) n)).isSome = true ↔ HasType g T n := by
+  constructor
+  · intro h
+    obtain ⟨v, hv⟩ := Option.isSome_iff_exists.1 h
+    obtain ⟨k, hw, _⟩ := weights_sound g hc n T v hv
+    exact hw.hasType
+  · exact (keys_complete g (weights g) (stateSorted_weights g) hfix T).1 n
+
+/-- **a finite weight is the largest number of tuple hops on any walk to that type** -/
+theorem finite_weight_is_max_hops (g : SGraph) (hfix : isFixpoint g (weights g) = true)
+    (hnorm : normalB g (weights g) = true) (n T : String) (v : Nat)
+    (h : lookupW T (stateGet (weights g) n) = some v) (hv : v ≠ infinite) :
+    Walk g T n v ∧ ∀ k, Walk g T n k → k ≤ v := by
+  obtain ⟨hc, hnv⟩ := normal_values g (weights g) hnorm
+  have hlt : v < g.length + 1 := by
+    rcases hnv n T v h with h1 | h1
+    · exact absurd h1 hv
+    · exact h1
+  constructor
+  · obtain ⟨k, hw, hk⟩ := weights_sound g hc n T v h
+    rcases hk with ⟨h1, _⟩ | h1
+    · exact absurd h1 hv
+    · have h1' : v = min k (g.length + 2) := h1
+      have : v = k := by omega
+      rw [this]; exact hw
+  · intro k hw
+    obtain ⟨v', hv', hle⟩ := walk_dominated g (weights g) (stateSorted_weights g) hfix hc T n k hw
+    rw [h] at hv'; cases hv'
+    have hle' : min k (g.length + 2) ≤ v := hle
+    omega
+
+/-- the weight is `Infinite` iff some walk has more hops than the graph has nodes -/
+theorem infinite_weight_iff_long_walk (g : SGraph) (hfix : isFixpoint g (weights g) = true)
+    (hnorm : normalB g (weights g) = true) (n T : String) :
+    lookupW T (stateGet (weights g) n) = some infinite ↔ ∃ k, g.length + 1 ≤ k ∧ Walk g T n k := by
+  obtain ⟨hc, hnv⟩ := normal_values g (weights g) hnorm
+  constructor
+  · intro h
+    obtain ⟨k, hw, hk⟩ := weights_sound g hc n T infinite h
+    rcases hk with ⟨_, h1⟩ | h1
+    · exact ⟨k, by omega, hw⟩
+    · have h1' : infinite = min k (g.length + 2) := h1
+      omega
+  · rintro ⟨k, hk, hw⟩
+    obtain ⟨v, hv, hle⟩ := walk_dominated g (weights g) (stateSorted_weights g) hfix hc T n k hw
+    have hle' : min k (g.length + 2) ≤ v := hle
+    rcases hnv n T v hv with h1 | h1
+    · rw [hv, h1]
+    · omega
+
+/-- **Infinite exactly when such walks are unbounded** -/
+theorem infinite_weight_iff_unbounded (g : SGraph) (hfix : isFixpoint g (weights g) = true)
+    (hnorm : normalB g (weights g) = true) (n T : String) :
+    lookupW T (stateGet (weights g) n) = some infinite ↔ ∀ K, ∃ k, K ≤ k ∧ Walk g T n k := by
+  rw [infinite_weight_iff_long_walk g hfix hnorm n T]
+  constructor
+  · rintro ⟨k, hk, hw⟩
+    exact long_walk_unbounded g T n k hw hk
+  · intro h
+    exact h (g.length + 1)
+
 /-! ### non-vacuity: `define a: [user] or a from p`, `define p: [doc]` — a tuple cycle through a TTU -/
 def demo : SGraph := [
   ⟨"doc#a", .rel, [⟨.node "doc#a@0", false, ""⟩]⟩,
@@ -72,5 +160,8 @@ def demo : SGraph := [
 example : isFixpoint demo (weights demo) = true ∧ (demo.map (·.name)).Nodup := by decide
 example : stateGet (weights demo) "doc#a" = [("user", infinite)] := by decide
 example : wellFounded demo = true := by decide
+example : normalB demo (weights demo) = true := by decide
+/-- a finite one: `define p: [doc]` has weight 1 for `doc` -/
+example : lookupW "doc" (stateGet (weights demo) "doc#p") = some 1 := by decide
 
 end FgaVerif.Props.C04
